@@ -937,7 +937,7 @@ def _apply_nm(world, op, st, res, target):
 
 # --------------------------------------------------------------------------- the run loop + oracles
 
-C08_ORACLES = ("I1-link", "I2-dup", "I3-stale-hash", "I4-eq-clone", "I4-eq-sql", "I5-frame")
+C08_ORACLES = ("I1-link", "I2-dup", "I3-stale-hash", "I4-eq-clone", "I4-eq-sql", "I4-unhashable", "I5-frame")
 C09_ORACLES = ("N1-arg-mutated", "N2-arg-sql-changed", "N3-copy-not-equal", "N4-copy-shares-node", "N5-arg-cache-link")
 
 
@@ -1061,7 +1061,7 @@ def execute(record, state=None):
             he = []
             if not le:
                 for a in res["nm"]:
-                    he = inv.check_hashes(a)[0]
+                    he = [x for x in inv.check_hashes(a)[0] if x[0] != "I4-unhashable"]
                     if he:
                         break
             if le or he:
@@ -1094,6 +1094,8 @@ def execute(record, state=None):
         if v is None:
             for t in world.trees:
                 he, _ = inv.check_hashes(t)
+                if he and he[0][0] == "I4-unhashable" and not (k == "parse" and res["new"] and res["new"][0][0] is t):
+                    he = []  # only a tree straight out of the parser is required to be hashable; edits can nest lists
                 if he:
                     e = he[0]
                     v = fail(e[0], "%s@%s" % (_opname(op), e[2]), step, "after %s: %s" % (_opname(op), e[1]))
